@@ -108,6 +108,21 @@ def check(ctx):
     ag = sn.agg_sites(r"stream::Stream$")
     ok = len(ag) == 1 and "counter: std::option::Option::Some{0: counter}" in render(sn.site_expr(ag[0]))
     ctx.ob("counter", "Stream::new stores the counter", ok, "%s:%d" % (sn.file, sn.line), render(sn.site_expr(ag[0]))[:160] if ag else "")
+    # the stream's share of the counter is released only by the explicit opt-out (ignore_for_keep_alive) or by dropping
+    # the stream: no other code may take / overwrite it (e.g. on close of one half)
+    sadt = ctx.prog.adt(SW, r"^libp2p_swarm::stream::Stream$")
+    cf = [f["n"] for f in sadt["variants"][0]["fields"] if "ActiveStreamCounter" in f["ty"]]
+    ctx.ob("counter", "floor:Stream has exactly one counter field", len(cf) == 1, nontrivial=False, msg=str(cf))
+    if len(cf) == 1:
+        writers = set()
+        for b in ctx.prog.bodies(SW):
+            if lib.field_mut_calls(b, cf[0]) or [s for s in b.field_write_sites(cf[0]) if "stream::Stream" in (render(b.site_expr(s)) + b.npath)]:
+                # only bodies that operate on a Stream (receiver / local of that type)
+                if any("stream::Stream" in (t or "") for t in b.locals):
+                    writers.add(b.npath)
+        allowed = {"libp2p_swarm::stream::Stream::ignore_for_keep_alive"}
+        ctx.ob("counter", "a stream's counter share is released only by ignore_for_keep_alive (or drop)", writers <= allowed and bool(writers),
+               "%s:%d" % (ig.file, ig.line), "bodies that mutate Stream.%s: %s" % (cf[0], sorted(writers)))
     for fn in ("new_outbound", "new_inbound"):
         ss = p.call_sites(r"connection::StreamUpgrade::%s$" % fn)
         ctx.floor("counter", "StreamUpgrade::%s call" % fn, ss, 1)
